@@ -230,18 +230,13 @@ Proof. intros H f Hf. destruct (H f Hf) as [_ [x [t [E _]]]]. rewrite E. discrim
 Lemma printer_ok_app pf fs gs : printer_ok pf fs -> printer_ok pf gs -> printer_ok pf (fs ++ gs).
 Proof. intros H1 H2 f Hf. apply in_app_or in Hf as [Hf|Hf]; [apply H1|apply H2]; exact Hf. Qed.
 
-Lemma parse_entry_two pf hs fs fuel rest :
-  printer_ok print_field_text hs -> printer_ok pf fs -> (length hs + length fs < fuel)%nat ->
-  parse_entry fuel (concat (map print_field_text hs) ++ concat (map pf fs) ++ NL :: rest) []
-  = POk (hs ++ fs, rest).
+Lemma parse_entry_two_acc pf hs fs rest :
+  printer_ok print_field_text hs -> printer_ok pf fs ->
+  forall acc fuel, (length hs + length fs < fuel)%nat ->
+  parse_entry fuel (concat (map print_field_text hs) ++ concat (map pf fs) ++ NL :: rest) acc
+  = POk (rev acc ++ hs ++ fs, rest).
 Proof.
-  intros Hh Hf Hfuel.
-  (* first run through the header fields, then continue with the rest *)
-  revert fuel Hfuel. generalize (@nil field) at 1 2 as acc0.
-  cut (forall acc fuel, (length hs + length fs < fuel)%nat ->
-        parse_entry fuel (concat (map print_field_text hs) ++ concat (map pf fs) ++ NL :: rest) acc
-        = POk (rev acc ++ hs ++ fs, rest)).
-  { intros H acc0 fuel Hfuel. destruct acc0; exact (H _ fuel Hfuel). }
+  intros Hh Hf.
   induction hs as [|h hs IH]; intros acc fuel Hfuel.
   - cbn [map concat app length] in *. apply parse_entry_print; [exact Hf|lia].
   - destruct fuel; [cbn in Hfuel; lia|].
@@ -253,6 +248,12 @@ Proof.
     + intros g Hg. apply Hh. right. exact Hg.
     + cbn [length] in Hfuel. lia.
 Qed.
+
+Lemma parse_entry_two pf hs fs fuel rest :
+  printer_ok print_field_text hs -> printer_ok pf fs -> (length hs + length fs < fuel)%nat ->
+  parse_entry fuel (concat (map print_field_text hs) ++ concat (map pf fs) ++ NL :: rest) []
+  = POk (hs ++ fs, rest).
+Proof. intros Hh Hf Hfuel. exact (parse_entry_two_acc pf hs fs rest Hh Hf [] fuel Hfuel). Qed.
 
 (* ------------------------------------------------------------------ printers are ok *)
 
@@ -267,8 +268,9 @@ Proof.
   intros H f Hf. rewrite Forall_forall in H. specialize (H f Hf). split.
   - intro rest. apply parse_field_safe. exact H.
   - destruct H as [Hk _]. destruct (wf_key_head _ Hk) as [x [t [E Hx]]].
-    unfold print_field_safe, print_field_text, print_field_binary, data_of.
-    destruct (text_safe _); rewrite E; cbn [app]; eauto.
+    destruct f as [k v]. cbn [fst] in E. subst k.
+    unfold print_field_safe, print_field_text, print_field_binary, data_of. cbn [fst snd].
+    destruct (text_safe ((x :: t) ++ EQ :: v)); cbn [app]; eauto.
 Qed.
 
 Lemma printer_ok_text fs :
@@ -277,7 +279,8 @@ Proof.
   intros H f Hf. rewrite Forall_forall in H. destruct (H f Hf) as [Hk Hv]. split.
   - intro rest. destruct Hk as [_ [H1 H2]]. apply parse_field_text; assumption.
   - destruct (wf_key_head _ Hk) as [x [t [E Hx]]].
-    unfold print_field_text, data_of. rewrite E. cbn [app]. eauto.
+    destruct f as [k v]. cbn [fst] in E. subst k.
+    unfold print_field_text, data_of. cbn [fst snd app]. eauto.
 Qed.
 
 (* decimal digits are digits *)
@@ -286,7 +289,7 @@ Lemma dec_digits_digits : forall fuel n acc,
 Proof.
   induction fuel as [|fuel IH]; intros n acc H; cbn [dec_digits]; [exact H|].
   assert (Hd : Forall (fun b => 48 <= b <= 57) ((48 + n mod 10) :: acc)).
-  { constructor; [|exact H]. pose proof (N.mod_upper_bound n 10). lia. }
+  { constructor; [|exact H]. assert (n mod 10 < 10) by (apply N.mod_upper_bound; lia). cbv beta. remember (n mod 10) as x. lia. }
   destruct (n <? 10); [exact Hd|]. apply IH. exact Hd.
 Qed.
 
